@@ -322,14 +322,14 @@ class Check(core.PropertyCheck):
         if tier == "quick":
             return {"CStreams": frozenset(C_QUICK), "SStreams": frozenset(S_QUICK), "Kinds": KINDS, "MaxOps": 2,
                     "MaxData": 2, "MaxCloses": 1, "LateEvents": False}
-        return {"CStreams": frozenset(C_THOROUGH), "SStreams": frozenset(S_THOROUGH), "Kinds": KINDS, "MaxOps": 3,
-                "MaxData": 3, "MaxCloses": 2, "LateEvents": True}
+        return {"CStreams": frozenset({0, 4, 2}), "SStreams": frozenset({1, 3}), "Kinds": KINDS, "MaxOps": 3,
+                "MaxData": 3, "MaxCloses": 1, "LateEvents": False}
 
     def model_runs(self, ctx):
         if ctx.quick:
             return [ctx.model_check(self.MODEL, self.model_constants("quick"), dump=True, timeout=1500)]
-        big = ctx.model_check(self.MODEL, self.model_constants("thorough"), dump=False, tag="_big", timeout=3000)
-        small = ctx.model_check(self.MODEL, self.model_constants("quick") | {"LateEvents": True}, dump=True)
+        big = ctx.model_check(self.MODEL, self.model_constants("thorough"), dump=False, tag="_big", timeout=3000, workers=4)
+        small = ctx.model_check(self.MODEL, self.model_constants("quick"), dump=True, timeout=1500)
         return [small, big]
 
     @staticmethod
@@ -365,7 +365,8 @@ class Check(core.PropertyCheck):
         for b in behs:
             yield core.Scenario({"ops": self._ops(b, consts)}, predicted=core.predicted_events(b), source="model")
         if not ctx.quick:
-            c2 = self.model_constants("thorough") | {"MaxOps": 8, "MaxData": 5}
+            c2 = {"CStreams": frozenset(C_THOROUGH), "SStreams": frozenset(S_THOROUGH), "Kinds": KINDS, "MaxOps": 8,
+                  "MaxData": 5, "MaxCloses": 2, "LateEvents": True}
             behs2, _r = ctx.simulate(self.MODEL, c2, num=4000, depth=40)
             for b in behs2:
                 yield core.Scenario({"ops": self._ops(b, c2)}, predicted=core.predicted_events(b), source="simulate")
